@@ -52,8 +52,13 @@ def snap(x, depth=0):
     from bionumpy.string_array import StringArray
     from bionumpy.bnpdataclass import BNPDataClass
     from npstructures import RaggedArray
-    if depth > 6:
+    if 6 < depth < 100 or depth > 106:
         return '<deep>'
+    if isinstance(x, (EncodedRaggedArray, RaggedArray)) and depth < 100:
+        # ravel() of a lazy ragged VIEW gathers its rows and installs the gathered array in the object: the snapshot is taken
+        # from a deep copy, so that taking it neither detaches the argument from memory it shares nor hides a later write
+        import copy
+        return snap(copy.deepcopy(x), depth + 100)
     if isinstance(x, EncodedRaggedArray):
         return ('ERA', str(x.encoding), np.asarray(x.ravel().raw()).tobytes(), tuple(int(v) for v in x._shape.lengths))
     if isinstance(x, EncodedArray):
@@ -141,6 +146,14 @@ def registry():
                  # every sign pattern on its own: plus only, minus only (each takes a different branch)
                  lambda: (E(['+5', '12', '+300']),), lambda: (E(['-5', '12', '-300']),), lambda: (E(['+7']),)]
     add('strops.str_to_int', strops.str_to_int, *texts_int)
+
+    def V(rows):    # the rows as a lazy ragged VIEW (row slice of a larger array that nothing has flattened yet)
+        return E(['99'] + list(rows) + ['+1'])[1:-1]
+    add('strops.str_to_int (argument is a row view)', strops.str_to_int, lambda: (V(['-12', '+3', '-450']),), lambda: (V(['7', '12']),),
+        lambda: (V(['+5', '12', '+300']),))
+    add('strops.str_to_float (argument is a row view)', strops.str_to_float, lambda: (V(['0.5', '-2.25', '1e3']),))
+    add('strops.str_to_int_with_missing (argument is a row view)', strops.str_to_int_with_missing, lambda: (V(['.', '5', '-3']),))
+    add('EncodedRaggedArray.copy (of a row view)', (lambda x: x.copy()), lambda: (V(['-12', '+3']),), lambda: (E(['AC', 'G', 'TTT'])[::-1],))
     texts_float = [lambda: (E(['0.5', '-2.25', '10']),), lambda: (E(['1e3', '2.5e-3', '-1e-10']),), lambda: (E(['.5', '5.', '-0.0']),)]
     add('strops.str_to_float', strops.str_to_float, *texts_float)
     add('strops.str_to_int_with_missing', strops.str_to_int_with_missing, lambda: (E(['.', '5', '-3']),), lambda: (E(['.', '.']),))
